@@ -96,8 +96,16 @@ class Dim:
                 return "apart" if k <= F(-1, 20) else None
             r = round(k)
             d = abs(k - r)
-            if d <= F(1, 10 ** 7):
+            # "on" = equal up to the rounding noise of the doubles involved (far inside the library's own 1e-8 band)
+            noise = F(1, 10 ** 12) + F(4, 2 ** 52) * (abs(q) + abs(self.off)) / self.iv
+            if noise > F(1, 10 ** 9):
+                return None
+            if d <= noise:
                 kf = (qf - float(self.off_f)) / float(self.iv_f)
+                if r == 0 and kf < 0:
+                    # on the first sample in exact arithmetic, below it in the float computation: the library has no
+                    # tolerance to the left of the first sample (float noise, A3) - not generated
+                    return None
                 return "on" if abs(kf - r) <= 1e-7 else None
             return "apart" if d >= F(1, 20) else None
         if self.kind == "range":
@@ -450,7 +458,8 @@ class Runner:
                     sets, past = self.expect(dims, exact, data.shape, incl)
                     self.judge("tagged_data", calls(rule), data, sets, past, False, sig, inf, rep)
                 # ---- feature data ----
-                finf = dict(inf, link_type=str(ltype), feature_shape=list(fdata.shape))
+                finf = dict(inf, link_type=str(ltype), feature_shape=list(fdata.shape), feature_dim_units=[unit_str(d.unit) for d in fdims],
+                            feature_dims=[{"iv": d.iv_f, "off": d.off_f} if d.kind == "sample" else ([float(t) for t in d.ticks] if d.kind == "range" else d.kind) for d in fdims])
                 if ltype == nix.LinkType.Tagged:
                     # the same region, applied to the feature array's own descriptors: the units must suit THOSE dimensions
                     fplen = min(plen, len(fdims))
